@@ -75,11 +75,11 @@ def record(rng, kind):
         L = len(body)
     elif kind == "oversize":
         nl = rng.choice([0, 3, 255])
-        L = 65471 - nl + rng.choice([1, 1, 2, 50])
+        L = 65544 + nl + rng.choice([1, 1, 2, 50])      # payload of 65508.. bytes: more than a UDP datagram carries (65507)
         body = header(rng, nl) + rng.bytes(L - 37)
     elif kind == "maxsize":  # exactly the largest accepted record
         nl = rng.choice([0, 3, 255])
-        L = 65471 - nl
+        L = 65544 + nl
         body = header(rng, nl) + ([0x61] * nl) + rng.bytes(L - 37 - nl)
     else:
         raise ValueError(kind)
